@@ -97,6 +97,17 @@ def _cleanup():
         _model = None
 
 
+def discard():
+    """Kill the current model process (if any); the next model() call starts a new one."""
+    global _model
+    if _model is not None:
+        try:
+            _model.p.kill()
+        except Exception:
+            pass
+        _model = None
+
+
 import atexit
 
 atexit.register(_cleanup)
